@@ -3,12 +3,23 @@ Driver for Model/TextCodec.lean:   lake env lean --run PgVerif/Drv/TextCodec.lea
   cast <hex of the UTF-8 bytes of the string>      -> none | bool T/F | int | float | list | str
   dom <sep hex> <hex>                              -> T | F    (inCsvDomain)
   line <sep hex> <hex line>                        -> ok <hex key> <hex value> | refused
+  seq <hex>                                        -> err | list <c:hex>… | tuple <c:hex>… | scalar <c:hex>   (`fromList`; c = i | f, the item's class)
+  tostr L|T <hex item>…                            -> <hex>          (`toStringSeq`)
+  removeall <hex p> <hex s>                        -> <hex>          (`removeAll`)
+  mat csv|xl|aif <hex key>                         -> not | prop <hex> | keyerror   (`matRead` with the GENERATED prefix of that format)
+  aifkey <hex key>                                 -> <hex tag> <hex key read back>|~   (`aifKeyEnc` / `aifKeyDec` with the generated prefix and slice)
+  stripq <hex>                                     -> <hex>          (`stripChar '\''`)
+  xlcount row|param|col|falsy <cells>              -> <n>            (`xlCount` with the generated end test; cells: e empty, s '', t text, z 0, n number, T/F booleans)
+  gate csv|xl|aif <hex written>                    -> warn | ok | raise   (`gateWarns` with the generated gate and required version)
+  tbl <name>                                       -> rows `;`-separated, fields `,`-separated, texts in hex, numbers in decimal
 (an empty string is sent as `-`)
 -/
 import PgVerif.Model.TextCodec
+import PgVerif.Gen.Formats
 import PgVerif.Drv.Proto
 
 open PgVerif.Model.TextCodec PgVerif.Proto
+open PgVerif.Gen.Formats
 
 def hexVal (c : Char) : Option Nat :=
   if '0' ≤ c ∧ c ≤ '9' then some (c.toNat - '0'.toNat)
@@ -30,8 +41,81 @@ def hexOf (s : List Char) : String :=
   let d := "0123456789abcdef".toList
   String.ofList ((String.ofList s).toUTF8.toList.flatMap fun b => [d.getD (b.toNat / 16) '0', d.getD (b.toNat % 16) '0'])
 
+def showItem (t : List Char) : String :=
+  (match pyNumClass t with | some .int => "i:" | some .float => "f:" | none => "?:") ++ hexOf t
+
+def showSeq : Option Seq → String
+  | none => "err"
+  | some (.list items) => " ".intercalate ("list" :: items.map showItem)
+  | some (.tuple items) => " ".intercalate ("tuple" :: items.map showItem)
+  | some (.scalar t) => "scalar " ++ showItem t
+
+def showMat : MatRead → String
+  | .notMaterial => "not" | .prop n => "prop " ++ hexOf n | .keyError => "keyerror"
+
+def cellOf : Char → Option Cell
+  | 'e' => some .empty | 's' => some (.text []) | 't' => some (.text ['x']) | 'z' => some (.num true) | 'n' => some (.num false)
+  | 'T' => some (.bool true) | 'F' => some (.bool false) | _ => none
+
+def hx (s : String) : String := hexOf s.toList
+
+def rows (l : List (List String)) : String := ";".intercalate (l.map fun r => ",".intercalate r)
+
+def table : String → Option String
+  | "aifMeta" => some (rows (aifMeta.map fun r => [hx r.1, hx r.2.1, hx r.2.2]))
+  | "aifMetaOld" => some (rows (aifMetaOld.map fun r => [hx r.1, hx r.2.1, hx r.2.2]))
+  | "aifData" => some (rows (aifData.map fun r => [hx r.1, hx r.2]))
+  | "aifUnits" => some (rows (aifUnits.map fun r => [hx r]))
+  | "xlMeta" => some (rows (xlMeta.map fun r => [hx r.1, hx r.2.1, hx r.2.2.1, toString r.2.2.2.1, toString r.2.2.2.2]))
+  | "versions" => some (rows [[hx csvVersion.written, hx xlVersion.written, hx aifVersion.written]])
+  | "precision" => some (toString parserPrecision)
+  | "csvModelWriter" => some (rows (csvModelWriter.map fun r => [hx r.1, hx r.2.1, hx r.2.2]))
+  | "csvModelReader" => some (rows (csvModelReader.map fun r => [hx r.1, hx r.2]))
+  | "csvHeaders" => some (rows [[hx csvDataHeader, hx csvModelHeader]])
+  | "xlPoint" => some (rows [[toString xlPointWriter.headerRow, toString xlPointWriter.dataRow, toString xlPointWriter.firstCol,
+      toString xlPointWriter.dtypeRow, toString xlPointWriter.dtypeCol, toString xlValueColOffsetWriter]])
+  | "xlModelWriter" => some (rows (xlModelWriter.map fun r => [toString r.1, hx r.2.1, toString r.2.2.1, hx r.2.2.2.1, hx r.2.2.2.2.1, toString r.2.2.2.2.2]))
+  | "xlParams" => some (rows [[toString xlParamsWriter.firstRow, toString xlParamsWriter.nameCol, toString xlParamsWriter.valueCol, toString xlParamHeadingRow]])
+  | "xlMarkers" => some (rows [xlMarkers.map hx])
+  | "aifModelWriter" => some (rows (aifModelWriter.map fun r => [hx r.1, hx r.2.1, (match r.2.2.1 with | some i => toString i | none => "~"), hx r.2.2.2]))
+  | "aifPrefixes" => some (rows [[hx aifCustomWriterPrefix, hx aifParamWriterPrefix, hx aifMaterial.writer, hx csvMaterial.writer, hx xlMaterial.writer]])
+  | "csvBranch" => some (rows (csvBranch.writer.map fun r => [toString r.1, hx r.2]))
+  | "xlBranch" => some (rows (xlBranch.writer.map fun r => [toString r.1, hx r.2]))
+  | "aifLoops" => some (rows (aifLoopsWriter.map fun r => [hx r.1, hx r.2.1] ++ r.2.2.map hx))
+  | _ => none
+
 def step (ts : List String) : String :=
   match ts with
+  | ["seq", h] => (match unhex h with | some s => showSeq (fromList s) | none => "bad-op")
+  | "tostr" :: k :: hs =>
+    match (if k == "L" then some SeqKind.list else if k == "T" then some SeqKind.tuple else none), hs.mapM unhex with
+    | some kind, some items => hexOf (toStringSeq kind items)
+    | _, _ => "bad-op"
+  | ["removeall", hp, h] =>
+    match unhex hp, unhex h with
+    | some p, some s => if p.isEmpty then "bad-op" else hexOf (removeAll p s)
+    | _, _ => "bad-op"
+  | ["mat", f, h] =>
+    match (if f == "csv" then some csvMaterial else if f == "xl" then some xlMaterial else if f == "aif" then some aifMaterial else none), unhex h with
+    | some p, some key => showMat (matRead p.startsWith.toList key)
+    | _, _ => "bad-op"
+  | ["aifkey", h] =>
+    match unhex h with
+    | some k =>
+      let tag := aifKeyEnc aifCustomWriterPrefix.toList k
+      s!"{hexOf tag} {match aifKeyDec aifCustomReaderPrefix.toList aifCustomReaderSlice tag with | some b => hexOf b | none => "~"}"
+    | none => "bad-op"
+  | ["stripq", h] => (match unhex h with | some s => hexOf (stripChar '\'' s) | none => "bad-op")
+  | ["xlcount", w, cs] =>
+    match (if w == "row" then some xlRowEnd else if w == "param" then some xlParamRowEnd else if w == "col" then some xlColEnd
+           else if w == "falsy" then some EndTest.falsy else none), cs.toList.mapM cellOf with
+    | some t, some cells => toString (xlCount t cells)
+    | _, _ => "bad-op"
+  | ["gate", f, h] =>
+    match (if f == "csv" then some csvVersion else if f == "xl" then some xlVersion else if f == "aif" then some aifVersion else none), unhex h with
+    | some v, some w => (match gateWarns v.gate w v.required.toList with | some true => "warn" | some false => "ok" | none => "raise")
+    | _, _ => "bad-op"
+  | ["tbl", n] => (table n).getD "bad-op"
   | ["cast", h] =>
     match unhex h with
     | some s => (match castString s with
